@@ -962,8 +962,10 @@ static void list_output_msp430_both(
   fprintf(asm_context->list, "\n");
 
   // An instruction that follows odd-length data is placed on the next even
-  // address by the assembler; the pad byte is not part of the instruction.
-  if ((start & 1) != 0) { start++; }
+  // address by the assembler; the pad byte (marked as data) is not part of
+  // the instruction.  Code that really starts on an odd address (a .repeat
+  // copy behind odd-length data) is listed from where it is.
+  if ((start & 1) != 0 && asm_context->read_debug(start) == DL_DATA) { start++; }
 
   while (start < end)
   {
